@@ -16,7 +16,9 @@ If(b, name) == IF b THEN {} ELSE {name}
 
 Fails(t) ==
   IF t.panic # "" THEN {"panic"}
-  ELSE IF t.op = "New" THEN If(t.post = t.pre, IF t.hasInit THEN "initial-totals-used" ELSE "default-totals")
+  \* first read (GetEnterLeaveEvent = post, PullEnterLeaveEvents seed = seed) against the folded option sequence
+  ELSE IF t.op = "New" THEN If(t.post = ConfInit(t.opts), IF HasOpt(t.opts, "init") THEN "initial-totals-used" ELSE "default-totals")
+                            \cup If(t.seed = t.post, "pull-seed-is-first-read")
   ELSE IF t.op = "Reset" THEN If(t.err = "OK", "err") \cup If(t.post = Reset(t.pre), "reset-totals")
   ELSE LET want == Event(t.pre, t.dir, t.se, t.sl) IN
        If(t.err = "OK", "err")
